@@ -7,7 +7,7 @@ import z3
 
 from . import repo
 from .exec import (Exec, Frame, Unsupported, PathEnd, PyExc, ReturnSig, Ref, SeqV, ObjV, NONE, I, INT, BOOL,
-                   is_int, is_bool, simp, TupleV, OpaqueV, _preorder)
+                   is_int, is_bool, simp, TupleV, OpaqueV, _preorder, PStr, DictV, PYSTR)
 
 VERIF = os.path.dirname(os.path.dirname(os.path.abspath(__file__)))
 repo.add_root("contracts", os.path.join(VERIF, "contracts"))
@@ -102,6 +102,16 @@ class Registry:
         for name in contract_modules:
             self.load(name)
 
+    @staticmethod
+    def _const_str(node, m):
+        if isinstance(node, ast.Constant):
+            return node.value
+        if isinstance(node, ast.Name) and node.id in m.assigns:
+            return Registry._const_str(m.assigns[node.id], m)
+        if isinstance(node, ast.BinOp) and isinstance(node.op, ast.Add):
+            return Registry._const_str(node.left, m) + Registry._const_str(node.right, m)
+        raise Unsupported("contract name must be a constant string expression")
+
     def load(self, name):
         m = repo.load_module(name)
         if m is None:
@@ -111,7 +121,7 @@ class Registry:
             if isinstance(node, ast.ClassDef):
                 for d in node.decorator_list:
                     if isinstance(d, ast.Call) and isinstance(d.func, ast.Name) and d.args:
-                        q = ast.literal_eval(d.args[0])
+                        q = self._const_str(d.args[0], m)
                         if d.func.id == "contract":
                             self.contracts[q] = Contract(q, m, node)
                         elif d.func.id == "class_contract":
@@ -133,6 +143,17 @@ class Registry:
             if c.qualname in self.class_contracts:
                 return self.class_contracts[c.qualname]
         return None
+
+    def kinds_of(self, obj_cls, test_cls):
+        """for abstract kind-tagged objects (the generator's Type hierarchy): the kind tags that are
+        instances of test_cls, from the class contract's `kinds` table"""
+        cc = self.class_contract(obj_cls)
+        if cc is None:
+            return None
+        table = cc.attrs.get("kinds")
+        if table is None:
+            return None
+        return table.get(test_cls.qualname, table.get(test_cls.name))
 
     def is_spec_module(self, name):
         return name == "contracts" or name.startswith("contracts.")
@@ -271,7 +292,7 @@ class Registry:
 
     def norm_sort(self, ann, module):
         ann = ann.strip("'\"")
-        if ann in ("int", "bool", "bytes", "bytearray", "str", "memoryview", "None"):
+        if ann in ("int", "bool", "bytes", "bytearray", "str", "memoryview", "None", "pystr", "dict", "opaque"):
             return ann
         if ann.startswith("Optional["):
             return "Optional[" + self.norm_sort(ann[9:-1], module) + "]"
@@ -299,6 +320,13 @@ class Registry:
             return ex.fresh(base, BOOL)
         if sort == "None":
             return NONE
+        if sort == "pystr":
+            return PStr(ex.fresh(base, PYSTR))
+        if sort == "dict":
+            n = next(ex.counter)
+            return DictV(z3.Function(f"IN_{base}!{n}", PYSTR, BOOL), z3.Function(f"VAL_{base}!{n}", PYSTR, BOOL))
+        if sort == "opaque":
+            return OpaqueV(base)
         if sort in ("bytes", "bytearray", "str", "memoryview", "list", "tuple"):
             return ex.alloc(ex.fresh_seq(sort, base))
         if sort.startswith("Optional["):
